@@ -215,6 +215,29 @@ theorem netWexact_zero (alg : Alg) (halg : alg = .chol ∨ alg = .gso) :
     (by show (2 : ℝ) ≠ 0; norm_num) PcX npX_sigma_inv npX_reg
     C01_gap_thresholds_default npX_rankGap alg (by rcases halg with rfl | rfl <;> decide) a ha
 
+/-- `Homogenization::run` inside the envelope solver accepts the blocks of `npX` (b-W7b's evaluated `BlockDiagonal::cholDec`,
+    `pSp_factorsU`; the blocks do not depend on rows / right-hand side) -/
+theorem npX_envSolve : ∃ s, envSolve (toProblem npX) = .ok s := by
+  have hc : (toProblem npX).cov.toList = (pSp [1]).cov.toList := by
+    rw [cov_toList, show cofs npX = cofs (npW 2 [1]) from rfl, npW2_cofs]; rfl
+  have hf : Env.factorsU (toProblem npX).cov.toList = some [⟨2, 1, #[2, 1, 3]⟩, ⟨1, 0, #[2]⟩] := by
+    rw [hc]; exact pSp_factorsU [1]
+  unfold envSolve envAnswer envAnswerOrd Env.homogenize
+  simp only [hf]
+  exact ⟨_, rfl⟩
+
+/-- **envelope, cholesky and gso answer** on `npX` -/
+theorem npX_answers3 (alg : Alg) (halg : alg ≠ .svd) : ∃ a, netSolve alg npX = .ok a := by
+  obtain ⟨hh, hp⟩ := prepare_ok'
+  refine (Gama.Props.C02.C02_net_answered_iff_resolves npX npX_dims npX_rows (by show (2 : ℝ) ≠ 0; norm_num) PcX
+    npX_sigma_inv npX_reg alg (fun _ => ⟨C01_gap_thresholds_default, npX_gap⟩)
+    (fun h => absurd h halg)
+    (fun g hg hne => (hne (npX_ker g hg)).elim) hh hp
+    (fun h => absurd h halg)
+    (fun _ => npX_envSolve)).2 ?_
+  intro g hg _
+  exact npX_ker g hg
+
 end facade
 
 end Gama.C06NZ.Ex
